@@ -29,6 +29,8 @@ struct TSpec {
     tag: u32,
     class: u32,
     panics: bool,
+    /// the panic happens while the arguments of an eprintln! are evaluated (print lock held)
+    panic_in_print: bool,
     nrec: u32,
     sleep_ms: u32,
     alloc: u32,
@@ -76,7 +78,7 @@ impl Scenario {
         for b in &self.batches {
             a.push(b.len().to_string());
             for s in b {
-                for x in [s.class, u32::from(s.panics), s.nrec, s.sleep_ms, s.alloc, s.fate] {
+                for x in [s.class, if s.panic_in_print { 2 } else { u32::from(s.panics) }, s.nrec, s.sleep_ms, s.alloc, s.fate] {
                     a.push(x.to_string());
                 }
             }
@@ -103,6 +105,7 @@ fn gen_scenario(dec: &mut Dec, flavor: Flavor, tier: Tier) -> Scenario {
         _ => nb,
     };
     let mut tag = 0;
+    let mut print_panic_used = false;
     let mut batches = Vec::new();
     for _ in 0..nb {
         let nt = 1 + dec.choose(K::Op, MAX_THREADS_PER_BATCH as u32);
@@ -118,7 +121,11 @@ fn gen_scenario(dec: &mut Dec, flavor: Flavor, tier: Tier) -> Scenario {
             let sleep_ms = if dec.chance(K::Arg, 1, if flavor == Flavor::C05 { 4 } else { 8 }) { 1 + dec.choose(K::Arg, 3) } else { 0 };
             let alloc = if dec.chance(K::Arg, 1, 3) { 1 + dec.choose(K::Arg, 64) } else { 0 };
             let fate = dec.choose(K::Arg, 4);
-            b.push(TSpec { tag, class, panics, nrec, sleep_ms, alloc, fate });
+            // at most one per process: a thread that panics while it holds tiny-std's print lock
+            // never releases it (there is no unwinding), a second one would rightly block for ever
+            let panic_in_print = panics && !print_panic_used && dec.chance(K::Arg, 1, 5);
+            print_panic_used |= panic_in_print;
+            b.push(TSpec { tag, class, panics, panic_in_print, nrec, sleep_ms, alloc, fate });
         }
         batches.push(b);
     }
@@ -259,6 +266,12 @@ fn judge_end(scn: &Scenario, out: &Out, f: &[TagFacts]) -> Option<Violation> {
 }
 
 fn judge_c05(scn: &Scenario, out: &Out, f: &[TagFacts]) -> Option<Violation> {
+    if let End::SpawnStuck { attempts } = &out.end {
+        return viol(
+            "spawn-never-returns|clone-keeps-failing".into(),
+            format!("with every clone failing (EAGAIN), spawn issued {attempts} clone calls in a row without returning an error"),
+        );
+    }
     // (4b) a state in which every live thread is parked: some join (or drop) never returns
     if let End::Deadlock(parked) = &out.end {
         let waiting = f.iter().enumerate().skip(1).find(|(_, e)| (e.joining.is_some() && e.joined.is_none()) || (e.dropping.is_some() && e.dropped.is_none()));
@@ -490,6 +503,8 @@ fn run_case(flavor: Flavor, case: u64, mut dec: Dec, opts: &RunOpts) -> RunOut {
     cfg.record = opts.record;
     if flavor == Flavor::C05 && dec.chance(K::Fault, 1, 3) {
         cfg.faults = FaultCfg { mmap_stack: true, clone: true, munmap: false, spurious_futex: false, num: 1, den: 5, max_per_run: 2 };
+        // a third of these: once clone has failed it keeps failing (a limit that stays reached)
+        cfg.clone_keeps_failing = dec.chance(K::Fault, 1, 3);
     }
     if flavor == Flavor::C06 && dec.chance(K::Fault, 1, 5) {
         // a spawn that fails must leave nothing behind either
